@@ -290,9 +290,10 @@ def unflatLoop {π : Type} (hd tl : κ → κ) : Fib κ π → κ → Fib κ π 
     if cl < hd x.1 then (cl, cur) :: unflatLoop hd tl rest (hd x.1) [(tl x.1, x.2)]
     else unflatLoop hd tl rest cl (cur ++ [(tl x.1, x.2)])
 
-/-- `unflattenRanks(levels=1)`; `self.coords[0]` raises `IndexError` on a fiber without elements -/
+/-- `unflattenRanks(levels=1)`; a fiber without elements has nothing to unflatten and comes back
+    as an empty fiber (`if len(self.coords) == 0`, /repo 97d752a) -/
 def unflat1 {π : Type} (hd tl : κ → κ) : Fib κ π → Option (Fib κ (Fib κ π))
-  | [] => none
+  | [] => some []
   | x :: rest => some (unflatLoop hd tl rest (hd x.1) [(tl x.1, x.2)])
 
 /-- `unflattenRanks(levels = l+1)`: every collected lower fiber is unflattened further -/
